@@ -21,13 +21,42 @@ def S(x):
     return str(x)
 
 
-def farr(xs):
-    return np.array([float(F(x)) for x in xs], dtype=float)
+def typed(a, dtype):
+    """the float64 array `a` in the caller's container `dtype` ('int64' | 'int32' | 'float32'), honoured only when
+    every value survives the conversion unchanged (whole numbers for the integer types): same values, other dtype"""
+    if dtype in gen.DTYPES:
+        b = a.astype(dtype)
+        if np.array_equal(b.astype(float), a):
+            return b
+    return a
 
 
-def iarr(rows):
+def dt_of(inp, side):
+    """inp["dtype"] = {"ref": ..., "est": ...}: the dtype of the time-like arrays of one side (absent = float64)"""
+    return (inp.get("dtype") or {}).get(side)
+
+
+def farr(xs, dtype=None):
+    return typed(np.array([float(F(x)) for x in xs], dtype=float), dtype)
+
+
+def iarr(rows, dtype=None):
     a = np.array([[float(F(a)), float(F(b))] for a, b in rows], dtype=float)
-    return a.reshape(-1, 2)
+    return typed(a.reshape(-1, 2), dtype)
+
+
+def with_dtypes(rng, inp, self_input=False):
+    """attach a dtype per side to an input whose time-like values are whole numbers (integer dtypes: the relations
+    compare real-valued scores to 1e-9, and scores computed from float32 arrays are legitimately single precision;
+    float32 containers are used where the outcome is discrete, at the matching sites of C05)"""
+    dt = gen.pick_dtypes(rng, float32=False)
+    if self_input and rng.random() < 0.5:
+        dt["est"] = dt.get("ref")       # the copy is stored like the original ...
+        dt = {k: v for k, v in dt.items() if v}
+        if not dt:
+            dt = {"ref": "int64", "est": "int64"}
+    inp["dtype"] = dt
+    return inp
 
 
 class Task:
@@ -47,12 +76,20 @@ class Task:
         """a non-degenerate annotation scored against a copy of itself"""
         raise NotImplementedError
 
+    def gen_typed(self, rng, self_input=False):
+        """an input (for gen_self when `self_input`) whose time-like values are whole numbers, with inp["dtype"] saying
+        in which integer / single-precision dtype each side is handed to the library; None: the task has no such form"""
+        return None
+
     def evaluate(self, inp, **kw):
         raise NotImplementedError
 
     def swap(self, inp):
         out = dict(inp)
         out["ref"], out["est"] = inp["est"], inp["ref"]
+        if inp.get("dtype"):
+            d = inp["dtype"]
+            out["dtype"] = {k: v for k, v in (("ref", d.get("est")), ("est", d.get("ref"))) if v}
         return out
 
     def shift(self, inp, c):
@@ -120,8 +157,23 @@ class Beat(Task):
         ref = self._track(rng, n=rng.choice([5, 6, 8, 12, 16]))
         return {"ref": [S(x) for x in ref], "est": [S(x) for x in ref]}
 
+    def gen_typed(self, rng, self_input=False):
+        # beats annotated on whole seconds (60 or 30 beats per minute), estimates a little off or on whole seconds too
+        period = rng.choice([1, 1, 2])
+        t0 = rng.randint(5, 8)
+        ref = [Fr(t0 + period * i) for i in range(rng.choice([5, 6, 8, 12, 16]))]
+        if self_input:
+            est = list(ref)
+        elif rng.random() < 0.4:
+            est = [r + rng.choice([0, 0, 0, 1, -1]) for r in ref if rng.random() < 0.9]
+            est = sorted(x for x in est if x >= 5)
+        else:
+            est = sorted(max(Fr(5), r + Fr(rng.choice([0, 1, -1, 2, -2, 3, 7, 16, -16, 33]), 32)) for r in ref
+                         if rng.random() < 0.9)
+        return with_dtypes(rng, {"ref": [S(x) for x in ref], "est": [S(x) for x in est]}, self_input)
+
     def evaluate(self, inp, **kw):
-        return mir_eval.beat.evaluate(farr(inp["ref"]), farr(inp["est"]), **kw)
+        return mir_eval.beat.evaluate(farr(inp["ref"], dt_of(inp, "ref")), farr(inp["est"], dt_of(inp, "est")), **kw)
 
     def shift(self, inp, c):
         return {"ref": [S(F(x) + c) for x in inp["ref"]], "est": [S(F(x) + c) for x in inp["est"]]}
@@ -160,8 +212,14 @@ class Onset(Task):
         ref = gen.events(rng) or [Fr(1)]
         return {"ref": [S(x) for x in ref], "est": [S(x) for x in ref]}
 
+    def gen_typed(self, rng, self_input=False):
+        ref, est, _ = gen.whole_events(rng)
+        if self_input:
+            est = list(ref)
+        return with_dtypes(rng, {"ref": [S(x) for x in ref], "est": [S(x) for x in est]}, self_input)
+
     def evaluate(self, inp, **kw):
-        return mir_eval.onset.evaluate(farr(inp["ref"]), farr(inp["est"]), **kw)
+        return mir_eval.onset.evaluate(farr(inp["ref"], dt_of(inp, "ref")), farr(inp["est"], dt_of(inp, "est")), **kw)
 
     def shift(self, inp, c):
         return {"ref": [S(F(x) + c) for x in inp["ref"]], "est": [S(F(x) + c) for x in inp["est"]]}
@@ -262,9 +320,25 @@ class Segment(Task):
                 break
         return {"ref": [sv(ri), rl], "est": [sv(ri), list(rl)]}
 
+    def gen_typed(self, rng, self_input=False):
+        # boundaries on whole seconds
+        span = Fr(rng.randint(3, 12))
+        while True:
+            ri, rl = gen_segmentation(rng, span, nmax=6, labels="abcd", lat=1)
+            if not self_input or (len(ri) >= 2 and len(set(rl)) >= 2):
+                break
+        if self_input:
+            ei, el = ri, list(rl)
+        elif rng.random() < 0.5:
+            ei, el = gen_segmentation(rng, span, labels="wxyz", lat=1)
+        else:
+            ei, el = gen_segmentation(rng, span, labels="wxyz")
+        return with_dtypes(rng, {"ref": [sv(ri), rl], "est": [sv(ei), el]}, self_input)
+
     def evaluate(self, inp, **kw):
         kw.setdefault("frame_size", float(F(self.frame)))
-        ri, rl, ei, el = iarr(inp["ref"][0]), list(inp["ref"][1]), iarr(inp["est"][0]), list(inp["est"][1])
+        ri, rl, ei, el = (iarr(inp["ref"][0], dt_of(inp, "ref")), list(inp["ref"][1]),
+                          iarr(inp["est"][0], dt_of(inp, "est")), list(inp["est"][1]))
         if inp.get("direct") and len(ri) and len(ei) and ri[0, 0] == ei[0, 0] == 0 and ri[-1, 1] == ei[-1, 1]:
             return self._direct(ri, rl, ei, el, **kw)
         return mir_eval.segment.evaluate(ri, rl, ei, el, **kw)
@@ -442,9 +516,30 @@ class Chord(Task):
         # in-vocabulary for all rules incl. majmin: restrict to maj/min triads + 7ths handled by sevenths only
         return {"ref": ref, "est": [list(map(list, ref[0])), list(ref[1])]}
 
+    def gen_typed(self, rng, self_input=False):
+        # chord changes on whole seconds
+        span = Fr(rng.randint(2, 12))
+        pool = [c for c in CHORD_POOL if c in ("C:maj", "A:min", "F#:min", "Bb:maj", "D:min7", "G:7", "F:maj7", "N")]
+        base = [c for c in pool if c != "N"]
+
+        def ann(sp, start, pl):
+            ivs, _ = gen_segmentation(rng, sp, nmax=6, lat=1, start=start)
+            return [sv(ivs), [rng.choice(pl) for _ in ivs]]
+        if self_input:
+            while True:
+                ref = ann(span, Fr(0), pool)
+                if any(l in base for l in ref[1]):
+                    break
+            est = [list(map(list, ref[0])), list(ref[1])]
+        else:
+            start = Fr(rng.choice([0, 0, 1, 2]))
+            ref = ann(span, start, CHORD_POOL)
+            est = ann(max(Fr(1), span + rng.choice([0, 0, 1, -1])), max(Fr(0), start + rng.choice([0, 0, -1, 1])), CHORD_POOL)
+        return with_dtypes(rng, {"ref": ref, "est": est}, self_input)
+
     def evaluate(self, inp, **kw):
-        return mir_eval.chord.evaluate(iarr(inp["ref"][0]), list(inp["ref"][1]),
-                                       iarr(inp["est"][0]), list(inp["est"][1]), **kw)
+        return mir_eval.chord.evaluate(iarr(inp["ref"][0], dt_of(inp, "ref")), list(inp["ref"][1]),
+                                       iarr(inp["est"][0], dt_of(inp, "est")), list(inp["est"][1]), **kw)
 
     def shift(self, inp, c):
         return {s: [[[S(F(a) + c), S(F(b) + c)] for a, b in inp[s][0]], inp[s][1]] for s in ("ref", "est")}
@@ -599,7 +694,16 @@ class Multipitch(Task):
         a, b = float(F(hz.get("ref", 1))), float(F(hz.get("est", 1)))
         rf = [np.array([midi_hz(F(m)) for m in f]) * a for f in inp["ref"][1]]
         ef = [np.array([midi_hz(F(m)) for m in f]) * b for f in inp["est"][1]]
-        return mir_eval.multipitch.evaluate(farr(inp["ref"][0]), rf, farr(inp["est"][0]), ef, **kw)
+        return mir_eval.multipitch.evaluate(farr(inp["ref"][0], dt_of(inp, "ref")), rf,
+                                            farr(inp["est"][0], dt_of(inp, "est")), ef, **kw)
+
+    def gen_typed(self, rng, self_input=False):
+        # one frame per whole second (the time stamps are what np.arange(n) gives)
+        inp = self.gen_self(rng) if self_input else self.gen(rng)
+        n = len(inp["ref"][0])
+        for s in ("ref", "est"):
+            inp[s] = [[S(Fr(i)) for i in range(n)], inp[s][1]]
+        return with_dtypes(rng, inp, self_input)
 
     def shift(self, inp, c):
         return {s: [[S(F(x) + c) for x in inp[s][0]], inp[s][1]] for s in ("ref", "est")}
@@ -697,15 +801,42 @@ class Transcription(Task):
         return {"ref": a, "est": [list(x) for x in a]}
 
     @staticmethod
-    def _split(notes):
-        iv = np.array([[float(F(a)), float(F(b))] for a, b, _ in notes]).reshape(-1, 2)
+    def _split(notes, dtype=None):
+        iv = typed(np.array([[float(F(a)), float(F(b))] for a, b, _ in notes]).reshape(-1, 2), dtype)
         p = np.array([midi_hz(F(m)) for _, _, m in notes])
         return iv, p
 
+    def _typed_notes(self, rng, self_input):
+        # note onsets and offsets on whole seconds
+        ref = []
+        for _ in range(rng.choice([1, 2, 3, 5, 8])):
+            on = Fr(rng.randint(0, 10))
+            ref.append([on, on + rng.choice([1, 1, 2, 3, 5]), Fr(rng.randint(40, 84))])
+        if self_input:
+            return ref, [list(n) for n in ref]
+        est = []
+        whole = rng.random() < 0.4
+        for on, off, m in ref:
+            if rng.random() < 0.15:
+                continue
+            if whole:
+                on2 = max(Fr(0), on + rng.choice([0, 0, 0, 1, -1]))
+                off2 = max(on2 + 1, off + rng.choice([0, 0, 1, -1, 2]))
+            else:
+                on2 = max(Fr(0), on + rng.choice([0, 0, Fr(1, 16), -Fr(1, 16), Fr(1, 32), Fr(1, 8), Fr(7, 16), -Fr(9, 16)]))
+                off2 = max(on2 + Fr(1, 16), off + rng.choice([0, 0, Fr(1, 16), Fr(1, 8), -Fr(1, 16), Fr(1, 2), -Fr(9, 16)]))
+            est.append([on2, off2, m + rng.choice([0, 0, 0, Fr(1, 4), 1, 12])])
+        return ref, est
+
+    def gen_typed(self, rng, self_input=False):
+        ref, est = self._typed_notes(rng, self_input)
+        return with_dtypes(rng, {"ref": [[S(v) for v in x] for x in ref], "est": [[S(v) for v in x] for x in est]},
+                           self_input)
+
     def evaluate(self, inp, **kw):
         hz = inp.get("hz") or {}
-        ri, rp = self._split(inp["ref"])
-        ei, ep = self._split(inp["est"])
+        ri, rp = self._split(inp["ref"], dt_of(inp, "ref"))
+        ei, ep = self._split(inp["est"], dt_of(inp, "est"))
         return mir_eval.transcription.evaluate(ri, rp * float(F(hz.get("ref", 1))), ei, ep * float(F(hz.get("est", 1))), **kw)
 
     def shift(self, inp, c):
@@ -753,16 +884,23 @@ class TranscriptionVelocity(Transcription):
         inp["est"] = [list(n) for n in inp["ref"]]
         return inp
 
+    def gen_typed(self, rng, self_input=False):
+        ref, est = self._typed_notes(rng, self_input)
+        ref = [n + [Fr(rng.randint(20, 120))] for n in ref]
+        est = [list(n) for n in ref] if self_input else [n + [Fr(rng.randint(20, 120))] for n in est]
+        return with_dtypes(rng, {"ref": [[S(v) for v in x] for x in ref], "est": [[S(v) for v in x] for x in est]},
+                           self_input)
+
     @staticmethod
-    def _split4(notes):
-        iv = np.array([[float(F(n[0])), float(F(n[1]))] for n in notes]).reshape(-1, 2)
+    def _split4(notes, dtype=None):
+        iv = typed(np.array([[float(F(n[0])), float(F(n[1]))] for n in notes]).reshape(-1, 2), dtype)
         p = np.array([midi_hz(F(n[2])) for n in notes])
         v = np.array([float(F(n[3])) for n in notes])
         return iv, p, v
 
     def evaluate(self, inp, **kw):
-        ri, rp, rv = self._split4(inp["ref"])
-        ei, ep, ev = self._split4(inp["est"])
+        ri, rp, rv = self._split4(inp["ref"], dt_of(inp, "ref"))
+        ei, ep, ev = self._split4(inp["est"], dt_of(inp, "est"))
         out = mir_eval.transcription_velocity.evaluate(ri, rp, rv, ei, ep, ev, **kw)
         kw2 = {k: v for k, v in kw.items() if k != "velocity_tolerance"}
         plain = mir_eval.transcription.evaluate(ri, rp, ei, ep, **kw2)
@@ -846,8 +984,21 @@ class Alignment(Task):
         inp = self.gen(rng)
         return {"ref": inp["ref"], "est": list(inp["ref"])}
 
+    def gen_typed(self, rng, self_input=False):
+        ref, t = [], Fr(rng.randint(0, 3))
+        for _ in range(rng.choice([2, 3, 5, 8])):
+            ref.append(t)
+            t += rng.randint(1, 3)
+        if self_input:
+            est = list(ref)
+        elif rng.random() < 0.5:
+            est = sorted(max(Fr(0), r + rng.choice([0, 0, 1, -1, 2])) for r in ref)
+        else:
+            est = sorted(max(Fr(0), r + Fr(rng.choice([0, 0, 1, -1, 4, -4, 10, 32, 9, -11]), 32)) for r in ref)
+        return with_dtypes(rng, {"ref": [S(x) for x in ref], "est": [S(x) for x in est]}, self_input)
+
     def evaluate(self, inp, **kw):
-        return mir_eval.alignment.evaluate(farr(inp["ref"]), farr(inp["est"]), **kw)
+        return mir_eval.alignment.evaluate(farr(inp["ref"], dt_of(inp, "ref")), farr(inp["est"], dt_of(inp, "est")), **kw)
 
     def shift(self, inp, c):
         return {"ref": [S(F(x) + c) for x in inp["ref"]], "est": [S(F(x) + c) for x in inp["est"]]}
